@@ -54,7 +54,9 @@ class Octree(GridObject):
     )
 
     def __init__(self, object_type: ObjectType, **kwargs):
-        self._origin: np.ndarray = np.zeros(3)
+        self._origin: np.ndarray = np.asarray(
+            tuple(np.zeros(3)), dtype=[("x", float), ("y", float), ("z", float)]
+        )
         self._rotation: float = 0.0
         self._u_count: int = 0
         self._v_count: int = 0
